@@ -589,7 +589,11 @@ def replay(check, path: str) -> int:
         doc = json.load(f)
     known = load_known(check.PROPERTY)
     log(f'replay {path}: expecting signature {doc["signature"]}' + (f' after {len(doc["preceding_plans"])} preceding run(s)' if doc.get('preceding_plans') else ''))
-    r = eval_isolated(check, [], doc.get('preceding_plans') or [], doc['plan'], doc['signature'])
+    # look for an UNLISTED violation with the recorded signature first; only if there is none, accept one that a listed
+    # finding explains (several violations of one run can share a signature)
+    r = eval_isolated(check, known, doc.get('preceding_plans') or [], doc['plan'], doc['signature'])
+    if r['hit'] is None and not r['error']:
+        r = eval_isolated(check, [], doc.get('preceding_plans') or [], doc['plan'], doc['signature'])
     if r['error']:
         log(f'HARNESS-ERROR while replaying: {r["error"]}')
         return 2
